@@ -253,7 +253,7 @@ CHECKS = {
                      'the stress part (real goroutines, no hooks) is not reproducible from the seed'],
     ),
     'C06': dict(
-        spec=['FpVerif.Spec.C06', 'FpVerif.Spec.C06Sound', 'FpVerif.Spec.C06Live', 'FpVerif.Spec.C06Chain', 'FpVerif.Spec.C06Drain', 'FpVerif.Spec.C06Once', 'FpVerif.Spec.C14MiscFut',
+        spec=['FpVerif.Spec.C06', 'FpVerif.Spec.C06Sound', 'FpVerif.Spec.C06Live', 'FpVerif.Spec.C06Chain', 'FpVerif.Spec.C06Drain', 'FpVerif.Spec.C06Once', 'FpVerif.Spec.C06HO', 'FpVerif.Spec.C14MiscFut',
               # the task-atomic model ASSUMES that a promise is an atomic single-assignment cell with exactly-once delivery at the level of the
               # individual atomic steps; that reduction is C05, so its theorems and its atomic-step harness are part of this check too
               # (seeds C06-2 / C06-6: a completion that gives up after a lost CAS leaves the derived future pending for ever)
@@ -263,7 +263,7 @@ CHECKS = {
         level='proof',
         level_note='trusted: Lean kernel (propext/Classical.choice/Quot.sound only); model fidelity checked by correspondence (statuses of every future, '
                    'callback log and pool size compared after EVERY scenario under the same schedule, i.e. the task structure itself is compared). '
-                   'PARTIAL: proved at task granularity (one ExecuteUnsafe-d runnable = one atomic step; the reduction from atomic-step granularity is C05); '
+                   'Proved at task granularity (one ExecuteUnsafe-d runnable = one atomic step; the reduction from atomic-step granularity is C05); '
                    'proved: single assignment and exactly-once task delivery under every event sequence, monotone three-valued Try semantics of every '
                    'derived combinator; Spec/C06Sound.lean: for EVERY schedule (construction moments, source completion order, task order) every completed '
                    'promise holds exactly what its first-order expression evaluates to over the statuses in that same state (never earlier, never different). '
@@ -274,8 +274,7 @@ CHECKS = {
                    'Spec/C06Drain.lean: the queue ALWAYS drains — every sequence of task runs from any reachable net is finite (runs_terminate, no_infinite_run; multiset/hydra ordering over the structural order of continuations, '
                    'Mathlib WellFounded.cutExpand), every strategy that keeps picking an existing task empties the queue, and then every promise holds exactly the value of its expression (eventually_exact). '
                    'Spec/C06Once.lean: exactly one completer per pending derived promise in every reachable net (exactly_one_completer) and no Complete call of the library ever fails (derived_complete_never_fails). '
-                   'Not proved: '
-                   'futures of futures (Flatten/LiftM) are outside the first-order fragment of the theorems — covered by the correspondence and direct checks.',
+                   'Spec/C06HO.lean: futures of futures (Successful of a future, Flatten, LiftM, LiftMN at every arity, FlatMethod1) are INSIDE the theorems: typed construction programs TExpr (erase = the FExpr that build runs), Try-level denotation den (Flatten = monadic join of the three-valued Try; den(LiftM fa ta) = bindOk (σ ta) (den ∘ fa); den(Flatten(Successful e)) = den e; no handles for programs over value futures: den_valRefs / srcE); for EVERY schedule: ho_built_future_sound / ho_built_future_below / ho_sound_every_schedule (a completed built future holds exactly the denotation over the statuses of the same state; at future-of-future type: its Try-level reading is below the denotation in the information order), ho_built_future_exact / ho_exact_at_quiescence (equality at quiescence), ho_eventually_exact (every strategy drains, then exact), ho_exactly_one_completer, ho_derived_complete_never_fails; the first-order theorem is a corollary (fo_ho, valid_of_fo, fo_built_future_sound_of_ho); seeded mutant C06-4 (LiftM2 binds its second argument first) refuted against the statements (liftM2_mutant_differs). Restriction of the fragment: a user function that receives a future as a VALUE may only return it (Flatten); Transform / Apply at future-of-future type are outside.',
         modelled='future.go (Promise cell, OnComplete, Future methods Map/FlatMap/Recover*/Or/OrFuture/Failed), future/future_op.go (Successful, Failed, '
                  'Apply/Apply2, FlatMap, Map, Map2, Zip, Zip3/LiftA3, LiftM via Flatten(Map), Compose, Method1, FlapMap, Transform, TransformWith, Sequence, '
                  'Traverse/TraverseSeq via iterator.FoldFuture). Not modelled: Await/timeouts, MonadChainN/ApplicativeFunctorN builders, inline executors.',
@@ -519,7 +518,10 @@ CHECKS.update({
     ),
     'C08': dict(
         spec=['FpVerif.Spec.C08', 'FpVerif.Spec.C08Inst'],
-        harnesses=[GOMBOK_C08_H()],
+        # a derived instance is a composition of the combinators of packages eq/ord/hash/monoid/clone: the theorems assume the
+        # components lawful (C09-C11, C18), so their correspondence harnesses run here too (seed C08-4: clone.Slice returning an
+        # empty slice with spare capacity unchanged; round-4 seeds clone.GoMap / monoid.HCons)
+        harnesses=[GOMBOK_C08_H(), H('clone', 'oracle_clone', 4000, 400000), H('tc', 'oracle_tc', 3000, 300000)],
         level='translation_validation',
         level_note='Lean: derived Eq/Ord/Hashable/Monoid/Clone are lawful and field-wise for every declaration, every type of field values and '
                    'all lawful components (Spec/C08); every instance expression the oracle evaluates (primitive instances of eq/ord/hash/monoid/clone, '
